@@ -1208,7 +1208,10 @@ Definition prop_C13_roundtrip (c : c13rt) : bool :=
               | None => false end)
       | _, _ => false
       end
-  | _ => true           (* the first script fails (ill-typed on purpose): nothing was written *)
+  | _ =>
+      (* the first script fails: nothing was written. Fine when it is ill-typed on purpose - not when all it does
+         is write a variable that was given a well-formed text of its type *)
+      match rt_given c with Some _ => false | None => true end
   end.
 
 Definition judge_C13_roundtrip (c : c13rt) : bool * bool * bool :=
